@@ -249,7 +249,7 @@ def table : List (Key × Disposition) := [
     .modelled "Tins.Wire.Raw.Icmp6.lladdr" "lladdr_type::from_option address.assign(ptr, opt.data_ptr() + opt.data_size())" "Tins.Wire.Raw.Icmp6.lladdr_eq (= ok of Icmp6.decLladdr, which harness/wire_icmp.h compares with the typed getter; Props.C01.raw_decoders_safe_icmp6)" [rk% "ICMPv6::lladdr_type::from_option(const Tins::ICMPv6::option &) | guard | opt.data_size() < 2"]),
   -- ICMPv6::map_type::from_option(const Tins::ICMPv6::option &)
   (rk% "ICMPv6::map_type::from_option(const Tins::ICMPv6::option &) | deref | *stream.pointer()",
-    .argued "`*stream.pointer()` peeks the byte the next statement reads with stream.read<uint8_t>() (which checks can_read(1)); the option holds exactly 30 / 22 bytes and at most one byte was consumed; Lean side Tins.Wire.Icmp.Icmp6.decMap is total (byteAt), not fault-explicit" [rk% "ICMPv6::map_type::from_option(const Tins::ICMPv6::option &) | guard | opt.data_size() != 2 + sizeof(uint32_t) + ipaddress_type::address_size"]),
+    .modelled "Tins.Wire.Raw.Icmp6.mapOpt" "map_type::from_option *stream.pointer()" "Tins.Wire.Raw.Icmp6.mapOpt_eq (= ok of Icmp6.decMap, which harness/wire_icmp.h compares with the typed getter; Props.C01.raw_decoders_safe_icmp6)" [rk% "ICMPv6::map_type::from_option(const Tins::ICMPv6::option &) | guard | opt.data_size() != 2 + sizeof(uint32_t) + ipaddress_type::address_size"]),
   -- ICMPv6::mobile_node_id_type::from_option(const Tins::ICMPv6::option &)
   (rk% "ICMPv6::mobile_node_id_type::from_option(const Tins::ICMPv6::option &) | deref | * ptr",
     .modelled "Tins.Wire.Raw.Icmp6.codeLen (mobile_node_id_type::from_option is the same code, statement for statement)" "handover_assist_info_type::from_option *ptr" "Tins.Wire.Raw.Icmp6.codeLen_eq (= ok of Icmp6.decCodeLen, which harness/wire_icmp.h compares with the typed getter; Props.C01.raw_decoders_safe_icmp6)" [rk% "ICMPv6::mobile_node_id_type::from_option(const Tins::ICMPv6::option &) | guard | opt.data_size() < 2", rk% "ICMPv6::mobile_node_id_type::from_option(const Tins::ICMPv6::option &) | guard | (end - ptr - 1) <* ptr"]),
@@ -277,7 +277,7 @@ def table : List (Key × Disposition) := [
     .modelled "Tins.Wire.Icmp.Icmp6.parseOpts" "ICMPv6::parse_options option payload" "Tins.Wire.Icmp.icmp6_parse_safe" [rk% "ICMPv6::parse_options(Memory::InputMemoryStream &) | guard | !stream.can_read(payload_size)"]),
   -- ICMPv6::prefix_info_type::from_option(const Tins::ICMPv6::option &)
   (rk% "ICMPv6::prefix_info_type::from_option(const Tins::ICMPv6::option &) | deref | *stream.pointer()",
-    .argued "`*stream.pointer()` peeks the byte the next statement reads with stream.read<uint8_t>() (which checks can_read(1)); the option holds exactly 30 / 22 bytes and at most one byte was consumed; Lean side Tins.Wire.Icmp.Icmp6.decPrefixInfo is total (byteAt), not fault-explicit" [rk% "ICMPv6::prefix_info_type::from_option(const Tins::ICMPv6::option &) | guard | opt.data_size() != 2 + sizeof(uint32_t) * 3 + ICMPv6::ipaddress_type::address_size"]),
+    .modelled "Tins.Wire.Raw.Icmp6.prefixInfo" "prefix_info_type::from_option *stream.pointer()" "Tins.Wire.Raw.Icmp6.prefixInfo_eq (= ok of Icmp6.decPrefixInfo, which harness/wire_icmp.h compares with the typed getter; Props.C01.raw_decoders_safe_icmp6)" [rk% "ICMPv6::prefix_info_type::from_option(const Tins::ICMPv6::option &) | guard | opt.data_size() != 2 + sizeof(uint32_t) * 3 + ICMPv6::ipaddress_type::address_size"]),
   -- ICMPv6::route_info_type::from_option(const Tins::ICMPv6::option &)
   (rk% "ICMPv6::route_info_type::from_option(const Tins::ICMPv6::option &) | externCall | output.prefix.assign(stream.pointer(), stream.pointer() + stream.size())",
     .argued "assigns [pointer(), pointer() + size()): the rest of the stream, inside the option data by the stream invariant (Props.C01.cursor_safe); Lean side Icmp6.decRouteInfo is total (`b.drop 6`)" [rk% "ICMPv6::route_info_type::from_option(const Tins::ICMPv6::option &) | guard | opt.data_size() < 2 + sizeof(uint32_t)"]),
